@@ -10,6 +10,8 @@ def run(tier, seed):
     for name, f in g.ALL:
         o, us = f("C19." + name)
         obs += o; units += us
+    for o in obs:
+        if not o.expect_sat and o.replay is None: o.replay = g.replay_helper
     smt.discharge_all(obs, tier, default_timeout=90 if tier == "quick" else 300)
     results = [runner.from_smt(o) for o in obs]
     n, bad = g.validate_translation(seed, 25 if tier == "quick" else 400)
